@@ -12,7 +12,7 @@ extern "C" {
 }
 using namespace vf;
 
-struct Item { int kind; uint64_t N; int op; int mtype; CpuCfg cfg; };
+struct Item { int kind; uint64_t N; int op; int mtype; CpuCfg cfg; bool wide = false; };
 
 // runs the aliased case and its out-of-place counterpart and compares
 static void alias_pair(Ctx& ctx, const ApiCase& aliased, const ApiCase& plain, bool model) {
@@ -57,12 +57,13 @@ static void run_vec(Ctx& ctx, const Item& it, bool thorough) {
   std::vector<int64_t> ps = {0};
   if (op.has_p) {
     ps.clear();
-    if (N <= 32) { for (int64_t p = 0; p < (int64_t)(2 * N); ++p) if (op.model == 'r' || (p & 1)) ps.push_back(p); ps.push_back(-3); ps.push_back((int64_t)(6 * N + 1)); }
+    if (it.wide) ps = {op.model == 'r' ? (int64_t)(2 * N) : (int64_t)N + 1, 3};
+    else if (N <= 32) { for (int64_t p = 0; p < (int64_t)(2 * N); ++p) if (op.model == 'r' || (p & 1)) ps.push_back(p); ps.push_back(-3); ps.push_back((int64_t)(6 * N + 1)); }
     else ps = {1, (int64_t)N - 1, (int64_t)N + 1, (int64_t)(2 * N - 1), 5, -3};
   }
   std::vector<int> aliases = op.nin == 1 ? std::vector<int>{AL_RES_A, AL_RES_A_COMPACT} : std::vector<int>{AL_RES_A, AL_RES_B, AL_RES_A_B, AL_RES_A_COMPACT};
   std::vector<uint64_t> strides = {N, N + 3};
-  const std::vector<uint64_t> SZV = N >= 2048 ? std::vector<uint64_t>{0, 1, 3} : std::vector<uint64_t>{0, 1, 2, 3, 7};  // thinner size box in the large-N layer
+  const std::vector<uint64_t> SZV = it.wide ? std::vector<uint64_t>{1, 65, 129, 257} : N >= 2048 ? std::vector<uint64_t>{0, 1, 3} : std::vector<uint64_t>{0, 1, 2, 3, 7};  // thinner size box in the large-N layer; wide layer: many limbs at small N
   std::set<std::string> seen;
   for (int al : aliases)
     for (uint64_t rs : SZV) for (uint64_t as : SZV) for (uint64_t bs : (op.nin >= 2 ? SZV : std::vector<uint64_t>{0}))
@@ -187,6 +188,10 @@ int main(int argc, char** argv) {
     items.push_back({1, N, 0, 0, c});
     items.push_back({2, N, 0, 0, c});
     if (c.avx2) items.push_back({2, N, 0, 1, c});  // NTT120 dft/idft exist only with avx2
+  }
+  for (uint64_t N : {4, 16}) for (auto& c : cf) for (int op = 0; op < NVECOPS; ++op) for (int mt = 0; mt < 2; ++mt) {
+    if (mt == 1 && VECOPS[op].fft64_only) continue;
+    Item w{0, N, op, mt, c}; w.wide = true; items.push_back(w);
   }
   std::stable_sort(items.begin(), items.end(), [](const Item& a, const Item& b) { return a.N > b.N; });
   bool th = args.thorough();
